@@ -242,6 +242,101 @@ pub fn check_case(case: &Case, st: &mut Stats) -> Result<(), String> {
     Ok(())
 }
 
+/// A longitude far outside [-180, 180]: the statement quantifies over *any finite longitude*. The
+/// longitude handed to the library is one double `big`; the physical point it denotes is
+/// `big % 360` (the IEEE remainder of a division is exact), so the oracle needs no rounding
+/// allowance beyond the usual edge band.
+#[derive(Debug, Clone)]
+pub struct FarCase {
+    pub src: Src,
+    pub res: i32,
+    /// 0: lon + 360 K with |K| = floor(10^mag) (rounded to a double); 1: an arbitrary huge double
+    /// built from `bits` with binary exponent 50 + mag * 69
+    pub kind: u8,
+    pub mag: f64,
+    pub neg: bool,
+    pub bits: u64,
+}
+
+fn far_json(c: &FarCase) -> Value {
+    json!({"src": src_json(&c.src), "res": c.res, "kind": c.kind, "mag": c.mag, "neg": c.neg, "bits": c.bits.to_string()})
+}
+fn far_from_json(v: &Value) -> Option<FarCase> {
+    Some(FarCase {
+        src: src_from_json(&v["src"])?,
+        res: v["res"].as_i64()? as i32,
+        kind: v["kind"].as_u64()? as u8,
+        mag: v["mag"].as_f64()?,
+        neg: v["neg"].as_bool()?,
+        bits: v["bits"].as_str()?.parse().ok()?,
+    })
+}
+
+pub fn far_longitude(lon: f64, c: &FarCase) -> f64 {
+    let sign = if c.neg { -1.0 } else { 1.0 };
+    if c.kind == 0 {
+        let k = 10f64.powf(c.mag).floor();
+        lon + sign * 360.0 * k
+    } else {
+        // mantissa from the bits, exponent 50..=1023
+        let e = (50.0 + c.mag / 14.0 * 973.0).floor().clamp(50.0, 1023.0) as i32;
+        let m = 1.0 + (c.bits >> 12) as f64 / (1u64 << 52) as f64;
+        let v = sign * m * 2f64.powi(e);
+        if v.is_finite() { v } else { sign * f64::MAX }
+    }
+}
+
+pub fn check_far(case: &FarCase, st: &mut Stats) -> Result<(), String> {
+    let res = case.res;
+    let src = case.src.with_res(res);
+    let (lon, lat, class) = src.lonlat()?;
+    let big = far_longitude(lon, case);
+    if !big.is_finite() {
+        return Ok(());
+    }
+    // the physical longitude of `big`, exactly
+    let phys = big % 360.0;
+    let p = vec_of_lonlat(phys, lat);
+    let (id, _c, branch) = lookup(big, lat, res)?;
+    let v = contain::contains(id, p)?;
+    if !v.contained {
+        return Err(format!(
+            "lonlat_to_cell(({:e}, {}), {}) = {:#x} does not contain the point: longitude {:e} is exactly {} modulo 360, planar signed distance of that point {:.3e} (cell size {:.3e}), boundary ring says {:?} at distance {:.3e} [class {}, lookup branch {}]",
+            big, lat, res, id, big, phys, v.planar, contain::cell_size(res), v.ring, v.ring_dist, class, branch
+        ));
+    }
+    // the same physical point given by its reduced longitude
+    let (id0, _c0, _) = lookup(phys, lat, res)?;
+    if id0 != id {
+        let v0 = contain::contains(id0, p)?;
+        if !v0.contained {
+            return Err(format!(
+                "lonlat_to_cell(({}, {}), {}) = {:#x} does not contain the point (planar {:.3e})",
+                phys, lat, res, id0, v0.planar
+            ));
+        }
+        if v.strict && v0.strict && lat.abs() != 90.0 {
+            return Err(format!(
+                "longitude {:e} and its reduced form {} denote the same point at latitude {}, strictly inside {:#x} (margin {:.3e}) and strictly inside {:#x} (margin {:.3e}) at resolution {}: cells of one resolution overlap or the lookup is inconsistent",
+                big, phys, lat, id, v.planar, id0, v0.planar, res
+            ));
+        }
+        st.hit("far:reduced-longitude-gave-different-cell(edge band or pole)");
+    }
+    st.nontrivial(&(big.to_bits(), lat.to_bits(), res));
+    st.hit(&format!("far:kind-{}", if case.kind == 0 { "lon+360K" } else { "huge-double" }));
+    st.hit(&format!("far:magnitude-1e{:+04}", big.abs().log10().floor() as i32 / 4 * 4));
+    st.hit(&format!("far:class:{}", class));
+    st.sample(true, || json!({"longitude": big, "exactly_mod_360": phys, "lat": lat, "res": res, "cell": format!("{:x}", id), "planar_margin": v.planar, "branch": branch}));
+    Ok(())
+}
+
+pub fn far_strategy() -> BoxedStrategy<FarCase> {
+    (src_strategy(gen::DEFAULT_POINT_WEIGHTS, 3), res_strategy(0), prop_oneof![3 => Just(0u8), 1 => Just(1u8)], 0.6f64..14.0, any::<bool>(), any::<u64>())
+        .prop_map(|(src, res, kind, mag, neg, bits)| FarCase { src, res, kind, mag, neg, bits })
+        .boxed()
+}
+
 /// Guided walk (targeted PBT): from a start point, repeatedly try a generated small displacement
 /// (a fraction of a cell) and move there when the lookup needed a *later* probe sample (read
 /// through the `verif` hook) than at the current point — a hill climb towards the rare points for
@@ -355,6 +450,10 @@ pub fn run(tier: Tier, seed: u64) -> Report {
     if !rep.absorb("on-corner", r) {
         return rep;
     }
+    let r = run_pbt("far-longitudes", seed, tier.pick(10_000, 400_000), far_strategy, check_far, far_json);
+    if !rep.absorb("far-longitudes", r) {
+        return rep;
+    }
     let r = run_pbt("guided-walks", seed, tier.pick(1_500, 60_000), walk_strategy, check_walk, walk_json);
     rep.absorb("guided-walks", r);
     rep
@@ -364,6 +463,7 @@ pub fn replay(section: &str, case: &Value) -> Option<Result<(), String>> {
     let mut st = Stats::default();
     Some(guarded(|| match section {
         "lookups" | "on-corner" => check_case(&case_from_json(case).ok_or("bad case")?, &mut st),
+        "far-longitudes" => check_far(&far_from_json(case).ok_or("bad case")?, &mut st),
         "guided-walks" => check_walk(&walk_from_json(case).ok_or("bad case")?, &mut st),
         _ => Err(format!("unknown section {}", section)),
     }))
